@@ -6,7 +6,16 @@ COQ = os.path.join(VERIF, 'coq')
 HARNESS = os.path.join(VERIF, 'harness')
 BUILD = os.path.join(VERIF, 'build')
 OUT = os.path.join(VERIF, 'out')
-REPO = os.environ.get('VERIF_REPO', '/repo')
+def _repo_path():
+    # development of checks in a private clone: VERIF_REPO or a one-line file .verif_repo in the clone's root
+    # name a scratch git worktree of /repo; the registered checks always run against /repo itself
+    if os.environ.get('VERIF_REPO'):
+        return os.environ['VERIF_REPO']
+    f = os.path.join(VERIF, '.verif_repo')
+    if os.path.exists(f):
+        return open(f).read().strip()
+    return '/repo'
+REPO = _repo_path()
 GOENV = dict(os.environ, GOFLAGS='-mod=mod', GOPROXY='off', GOSUMDB='off', GOTOOLCHAIN='local',
              CGO_ENABLED=os.environ.get('CGO_ENABLED', '0'))
 
@@ -195,15 +204,16 @@ def chunks(l, n):
 def build_harness(race=False):
     """rebuild the harness binary against /repo's CURRENT working tree, hooks on"""
     with Lock('harness'):
-        if REPO != '/repo':   # scratch worktree given by VERIF_REPO (development of checks only)
-            sh(['go', 'mod', 'edit', '-replace', 'github.com/ThreeDotsLabs/watermill=' + REPO], cwd=HARNESS, env=GOENV)
-        shutil.copyfile(os.path.join(REPO, 'go.sum'), os.path.join(HARNESS, 'go.sum'))
-        extra = os.path.join(HARNESS, 'go.sum.extra')
-        if os.path.exists(extra):
-            open(os.path.join(HARNESS, 'go.sum'), 'a').write(open(extra).read())
+        # the module file is generated into build/ on every build (harness/go.mod with the replace
+        # pointing at the repo tree under test; go.sum = the repo's own), so nothing tracked changes
+        os.makedirs(BUILD, exist_ok=True)
+        mod = open(os.path.join(HARNESS, 'go.mod')).read().replace('=> /repo', '=> ' + REPO)
+        modfile = os.path.join(BUILD, 'harness.mod')
+        open(modfile, 'w').write(mod)
+        shutil.copyfile(os.path.join(REPO, 'go.sum'), os.path.join(BUILD, 'harness.sum'))
         out = os.path.join(BUILD, 'wmh-race' if race else 'wmh')
         env = dict(GOENV)
-        cmd = ['go', 'build', '-tags', 'verif']
+        cmd = ['go', 'build', '-modfile=' + modfile, '-tags', 'verif']
         if race:
             cmd.append('-race'); env['CGO_ENABLED'] = '1'
         cmd += ['-o', out, './cmd/wmh']
